@@ -23,6 +23,7 @@ import Pyiga.Model.VForm
 import Pyiga.Model.VFormIO
 import Pyiga.Model.SLP
 import Pyiga.Model.VFormPhys
+import Pyiga.Model.VFormIndex
 
 open Pyiga Pyiga.Proto Pyiga.VForm Pyiga.SLP
 
@@ -109,6 +110,24 @@ def request : P String := do
       match (postorder e).findSome? (replacePhysRaisesST dim physIn) with
       | some err => pure err
       | none => pure (showExpr (replacePhysAllST dim physIn e))
+  | "getitem" => do
+      -- getitem <e> <axis>*   axis = `1 <int>` | `n <int list>`
+      let e ← pExpr
+      let pAxis : P AxisIdx := do
+        match (← tok) with
+        | "1" => do let i ← int; pure (AxisIdx.one i)
+        | "n" => do let l ← list int; pure (AxisIdx.many l)
+        | _ => failure
+      let I ← pAxis
+      if isVector e then
+        match getitemV e I with
+        | .ok r => pure (showExpr r)
+        | .error s => pure s
+      else do
+        let J ← pAxis
+        match getitemM e I J with
+        | .ok r => pure (showExpr r)
+        | .error s => pure s
   | "vec" => do let bfs ← list pBFun; let e ← pExpr; pure (showExpr (substVec bfs e))
   | "keys" => do
       let t ← pKeyTable; let roots ← list pExpr
